@@ -103,6 +103,16 @@ func c16Cond(conds []metav1.Condition, typ string) string {
 
 func c16SpecLabel(spec []int) string { return fmt.Sprintf("%d.%d.%d", spec[0], spec[1], spec[2]) }
 
+func c16ODPausedStr(od client.Object) string {
+	switch {
+	case od == nil:
+		return "-"
+	case verifc16.ODPaused(od):
+		return "1"
+	}
+	return "0"
+}
+
 func c16CtrlExec(s verifc16.Scn) string {
 	if len(s.Spec) != 3 || len(s.Pkgs) == 0 {
 		return "BAD-SCN"
@@ -124,6 +134,9 @@ func c16CtrlExec(s verifc16.Scn) string {
 	gc.unpackReconciler.environmentSink = sink
 
 	spec := append([]int(nil), s.Spec...)
+	// spec.paused of the Package: a history dimension of the C09 stream pkgpause only
+	pkgpause := s.Mode == "pkgpause"
+	paused := pkgpause && s.Paused
 	hashes := map[string]string{}
 	om := metav1.ObjectMeta{Name: "p", UID: types.UID("pkg-uid"), Generation: 1, ResourceVersion: "1"}
 	req := ctrl.Request{NamespacedName: types.NamespacedName{Name: "p"}}
@@ -140,6 +153,7 @@ func c16CtrlExec(s verifc16.Scn) string {
 	applySpec := func() {
 		ps := corev1alpha1.PackageSpec{
 			Image: verifc16.ImageName(spec[0]), Config: verifc16.ConfigRaw(spec[1]), Component: verifc16.ComponentName(spec[2]),
+			Paused: paused,
 		}
 		var acc adapters.GenericPackageAccessor
 		switch p := c.Pkg.(type) {
@@ -150,7 +164,11 @@ func c16CtrlExec(s verifc16.Scn) string {
 			p.Spec = ps
 			acc = &adapters.GenericClusterPackage{ClusterPackage: *p.DeepCopy()}
 		}
-		hashes[acc.GetSpecHash(&hashMod)] = c16SpecLabel(spec)
+		label := c16SpecLabel(spec)
+		if paused {
+			label += "p" // the spec hash covers spec.paused
+		}
+		hashes[acc.GetSpecHash(&hashMod)] = label
 	}
 	if !valid() {
 		return "BAD-SCN"
@@ -181,8 +199,21 @@ func c16CtrlExec(s verifc16.Scn) string {
 			}
 			applySpec()
 			outs = append(outs, "e")
+		case "pause", "unpause":
+			if !pkgpause {
+				return "BAD-OP"
+			}
+			paused = op.Op == "pause"
+			c.Pkg.SetGeneration(c.Pkg.GetGeneration() + 1)
+			applySpec()
+			outs = append(outs, map[bool]string{true: "p+", false: "p-"}[paused])
+		case "tp":
+			if !pkgpause || !c.ThirdParty(op.F) {
+				return "BAD-OP"
+			}
+			outs = append(outs, "tp")
 		case "pass":
-			c.Fault, c.Log = "", nil
+			c.ResetPass()
 			puller.fail, puller.pulls, sink.fail, dep.n = false, nil, false, 0
 			switch op.Fault {
 			case "pull":
@@ -219,9 +250,15 @@ func c16CtrlExec(s verifc16.Scn) string {
 			for i, x := range puller.pulls {
 				pl[i] = fmt.Sprint(x)
 			}
-			outs = append(outs, fmt.Sprintf("r=%s pull=%s dep=%d w=%s t=%s h=%s un=%s inv=%s",
+			line := fmt.Sprintf("r=%s pull=%s dep=%d w=%s t=%s h=%s un=%s inv=%s",
 				r, strings.Join(pl, ","), dep.n, strings.Join(c.Log, ","), verifc16.TemplateID(c.OD), h,
-				c16Cond(st.Conditions, corev1alpha1.PackageUnpacked), c16Cond(st.Conditions, corev1alpha1.PackageInvalid)))
+				c16Cond(st.Conditions, corev1alpha1.PackageUnpacked), c16Cond(st.Conditions, corev1alpha1.PackageInvalid))
+			if pkgpause {
+				// pp = spec.paused of the Package during the pass, odp = spec.paused of the stored
+				// ObjectDeployment after it, sw = what each accepted Update of the controller itself changed
+				line += fmt.Sprintf(" pp=%d odp=%s sw=%s", btoi(paused), c16ODPausedStr(c.OD), strings.Join(c.Sync, ","))
+			}
+			outs = append(outs, line)
 		default:
 			return "BAD-OP"
 		}
@@ -246,17 +283,22 @@ func c16CtrlTags(s verifc16.Scn, out string) []string {
 		}
 	}
 	for _, op := range s.Ops {
-		if op.Op == "edit" {
+		switch op.Op {
+		case "edit":
 			add("edit=" + op.F)
-		} else {
+		case "pass":
 			add("fault=" + op.Fault)
+		case "tp":
+			add("tp=" + op.F)
+		default:
+			add("op=" + op.Op)
 		}
 	}
 	for _, st := range strings.Split(out, ";") {
 		for _, f := range strings.Fields(st) {
 			switch {
 			case strings.HasPrefix(f, "r="), strings.HasPrefix(f, "w="), strings.HasPrefix(f, "un="), strings.HasPrefix(f, "inv="),
-				strings.HasPrefix(f, "dep="):
+				strings.HasPrefix(f, "dep="), strings.HasPrefix(f, "pp="), strings.HasPrefix(f, "odp="), strings.HasPrefix(f, "sw="):
 				add("out:" + f)
 			case strings.HasPrefix(f, "pull="):
 				add(fmt.Sprintf("out:pulls=%d", len(strings.Split(strings.TrimPrefix(f, "pull="), ","))-btoi(f == "pull=")))
